@@ -6,6 +6,7 @@ import HcipyVerif.Model.Detector
 ```
 new noiseless|old <s> <dims>            one detector per `new`; dims = coarse shape, slowest first
 new noisy <s> <dims> <dark> <flat|->    NoisyDetector, photon noise off, read noise 0
+set flat|dark|sigma <list>              assign a parameter (one value per pixel); set photon 0|1
 int <power-list> <dt> <weight>          -> ok | err value
 read                                    -> ok <image-list> | err attribute
 ```
@@ -20,20 +21,24 @@ structure St where
   kind : Kind := .noiseless
   geom : Geom := { dims := [] }
   st : Detector.St Rat := {}
-  nst : NSt Rat := {}
-  noise : Noise Rat := { dark := 0, flat := [], sigma := 0, draws := fun _ => [] }
+  pst : PSt Rat := { flat := [], dark := [], sigma := [] }
 
 def showObs : Obs Rat → String
   | .done => "ok"
   | .refused => "err value"
   | .image img => "ok " ++ showRatList img
   | .failed => "err attribute"
+  | .random => "ok random"
 
 def apply (st : St) (op : Op Rat) : St × String :=
   match st.kind with
   | .noiseless => let r := Detector.step st.geom st.st op; ({ st with st := r.1 }, showObs r.2)
   | .old => let r := Detector.stepOld st.geom st.st op; ({ st with st := r.1 }, showObs r.2)
-  | .noisy => let r := Detector.nStep st.geom st.noise st.nst op; ({ st with nst := r.1 }, showObs r.2)
+  | .noisy =>
+    let pop : POp Rat := match op with
+      | .integrate p dt w => .integrate p dt w
+      | .readOut => .readOut
+    let r := Detector.pStep st.geom st.pst pop; ({ st with pst := r.1 }, showObs r.2)
 
 def step (st : St) : List String → St × String
   | ["reset"] => ({}, "ok")
@@ -56,7 +61,7 @@ def step (st : St) : List String → St × String
       | some fl =>
         if fl.length ≠ n then (st, "bad-op") else
         ({ kind := .noisy, geom := { dims := dims, s := s },
-           noise := { dark := dark, flat := fl, sigma := 0, draws := fun _ => List.replicate n 0 } }, "ok")
+           pst := { flat := fl, dark := List.replicate n dark, sigma := List.replicate n 0 } }, "ok")
       | none => (st, "bad-op")
     | _, _, _ => (st, "bad-op")
   | ["int", p, dt, w] =>
@@ -64,6 +69,23 @@ def step (st : St) : List String → St × String
     | some p, some dt, some w => apply st (.integrate p dt w)
     | _, _, _ => (st, "bad-op")
   | ["read"] => apply st .readOut
+  | ["set", "photon", b] =>
+    if st.kind != .noisy then (st, "bad-op") else
+    match b with
+    | "0" => ({ st with pst := (Detector.pStep st.geom st.pst (.setPhoton false)).1 }, "ok")
+    | "1" => ({ st with pst := (Detector.pStep st.geom st.pst (.setPhoton true)).1 }, "ok")
+    | _ => (st, "bad-op")
+  | ["set", what, l] =>
+    if st.kind != .noisy then (st, "bad-op") else
+    match parseRatList? l with
+    | some l =>
+      if l.length ≠ st.geom.npix then (st, "bad-op") else
+      match what with
+      | "flat" => ({ st with pst := (Detector.pStep st.geom st.pst (.setFlat l)).1 }, "ok")
+      | "dark" => ({ st with pst := (Detector.pStep st.geom st.pst (.setDark l)).1 }, "ok")
+      | "sigma" => ({ st with pst := (Detector.pStep st.geom st.pst (.setSigma l)).1 }, "ok")
+      | _ => (st, "bad-op")
+    | none => (st, "bad-op")
   | _ => (st, "bad-op")
 
 end HcipyVerif.Driver.C17
